@@ -79,6 +79,17 @@ def make_history(sp, rng, nops):
     base += header_ops(sp, rng, 8)
     objs = ['R0', 'R1', 'R2', 'E', 'E.acc'] + ([] if sp.is2d else ['X'])
     hist = []
+    # directed prefixes on one reader: every stored header array loaded one way, then headers regenerated the other way (and back)
+    mode = rng.randrange(4)
+    o = rng.choice(['R0', 'R1', 'E'])
+    tf = [('get_tracefield_values', (k,)) for k in sp.stored]
+    hd = [('gen_trace_header', (t,)) for t in sorted({0, sp.ntr - 1, sp.ntr // 2, rng.randrange(sp.ntr), rng.randrange(sp.ntr)})]
+    if mode == 1:
+        hist += [(o, x) for x in tf + hd]
+    elif mode == 2:
+        hist += [(o, x) for x in hd[:2] + tf + hd]
+    elif mode == 3:
+        hist += [(o, ('get_tracefield_1d', (k,))) for k in sp.stored] + [(o, x) for x in hd] + [(o, ('gen_trace_header', (0,), {'load_all_headers': True}))] + [(o, x) for x in tf]
     while len(hist) < nops:
         mode = rng.random()
         if mode < 0.15:
